@@ -221,7 +221,10 @@ def _keys_of_flavour(f, cfg):
         return ["d:1#0", "d:1#1", "d:2#0"]
     if f == "w":
         if cfg.get("dictwrapper_run"):
-            return [f"w:{k}" for k in range(1, 9)]
+            keys = [f"w:{k}" for k in range(1, 9)]
+            if not any(sl in ("typed", "tsub", "thook") for sl in cfg["slots"]):
+                keys.append("w:9")  # its dict has a user field named "kind"
+            return keys
         return ["w:1", "w:2", "w:3"]
     if f == "o":
         return ["o:1", "o:2", "o:3"]
